@@ -39,8 +39,16 @@ PROPS = {
     "C15": {"jobs": wrappers("reg", ["atomic_guarded", "guarded", "guarded_opt", "ordered_guarded",
                                      "deferred_rw"], 100000, 2500000)},
     "C03": {"jobs": [J("lr.std", "wl_lr", 200000, 6000000, mode="std")]},
+    "C05": {"jobs": [J("rcu.std", "wl_rcu", 120000, 3000000, mode="std", elem=0),
+                     J("rcu.std.string", "wl_rcu", 40000, 1000000, mode="std", elem=1)]},
+    "C12": {"jobs": [J("rcu.std", "wl_rcu", 120000, 3000000, mode="std", elem=0),
+                     J("rcu.std.blob", "wl_rcu", 40000, 1000000, mode="std", elem=2)]},
+    "C13": {"jobs": [J("rcu.c13.tracked", "wl_rcu", 60000, 1500000, mode="c13", elem=0),
+                     J("rcu.c13.string", "wl_rcu", 60000, 1500000, mode="c13", elem=1),
+                     J("rcu.c13.blob", "wl_rcu", 40000, 1000000, mode="c13", elem=2)]},
     "C14": {"jobs": [J("lr.freeze", "wl_lr", 60000, 1500000, mode="freeze"),
-                     J("lr.overlap", "wl_lr", 20000, 500000, mode="overlap")]},
+                     J("lr.overlap", "wl_lr", 20000, 500000, mode="overlap"),
+                     J("rcu.freeze", "wl_rcu", 60000, 1500000, mode="freeze", elem=0)]},
 }
 
 
